@@ -61,7 +61,12 @@ class AsyncManager(BaseManager):
                         self.server._send_packet(eio_sid, pkt)))
         if tasks == []:  # pragma: no cover
             return
-        await asyncio.wait(tasks)
+        done, _ = await asyncio.wait(tasks)
+        for task in done:
+            # an error while encoding or sending is the caller's to see, as
+            # it is in the threaded manager
+            if not task.cancelled() and task.exception() is not None:
+                raise task.exception()
 
     async def connect(self, eio_sid, namespace):
         """Register a client connection to a namespace.
